@@ -39,7 +39,7 @@ for p in "${ARGS[@]}"; do
   fi
   suite="-"
   if [ "${SENS_SUITE:-0}" = "1" ]; then
-    if (cd "$S/repo" && cargo test --workspace --no-fail-fast --offline >/dev/null 2>&1); then suite="passes"; else suite="FAILS"; fi
+    if (cd "$S/repo" && timeout 600 cargo test --workspace --no-fail-fast --offline >/dev/null 2>&1); then suite="passes"; else suite="FAILS"; fi
   fi
   res=""
   for id in $props; do
